@@ -24,14 +24,13 @@ LEVEL_TEXT = ('Lean 4 theorems, for all input fields/offsets, samplings, tilt sh
               'the ones read off the code\'s own array_extent/dft2 calls. The call as the caller writes it (propagateDftCall): shape=None is the wavefront shape, '
               'prop_shape=None is shape, an int is a square (shape_defaults), without a mask the call is propagateDft at the resolved shapes (call_no_mask, '
               'call_all_defaults), with a mask of the output shape it is propagateDft on the mask\'s bounding box and an all-zero mask is IndexError '
-              '(call_mask_matching), and the call ends in ValueError iff BOTH mask dimensions differ from the output array (call_mask_refused_iff) — the '
+              '(call_mask_matching), the call ends in ValueError iff the mask differs from the output array in EITHER dimension (call_mask_refused_iff), so an '
+              'accepted mask has the output shape (accepted_mask_has_output_shape; former_mask_witness_refused: the 8x10 / 10x8 masks of the fixed finding are refused) — the '
               'defaults, the broadcasting, the guard, the threshold and both out_extent calls are regenerated from propagate_dft. For a common shift the sum over fields is '
               'the Fraunhofer sum of Wavefront.field of the input (propagateDft_common_shift).')
 LEVEL_NOTE = ('Partial: trunc on floats enters as the class operation TruncLike.trunc (Float truncation in the driver, floor/ceil by sign at R); '
               'the two are tied by the differential check of every split and by a probe of 8 adversarial doubles per case (integers +-1 ulp, halves, '
-              '+-0.0, subnormals, up to 2**52) compared exactly with np.fix. A mask that differs from the output array in ONE dimension is accepted by the '
-              'code (the model follows it; known finding KF-C02-mask-shape-guard, kf_mask_shape_guard); placement theorems assume a mask of the output '
-              'shape. oversample also scales the shift, which is C04\'s Field.shift. '
+              '+-0.0, subnormals, up to 2**52) compared exactly with np.fix. oversample also scales the shift, which is C04\'s Field.shift. '
               'Trusted: Lean kernel, py2lean subset semantics, NumPy dot/exp/broadcast_to/fix as modelled, generator coverage.')
 TECHNIQUE = 'Lean 4 proof (omega + ring) over translator-regenerated window kernel + Float model with differential correspondence'
 GEN = ['Extent', 'FftScratch', 'FieldDispatch', 'FieldIdx', 'FieldMerge', 'FourierWiring', 'Helper', 'Helper20', 'Hex', 'Mesh', 'PlanePhase', 'PlaneType', 'PropagateMeta', 'Util', 'Window', 'FieldAccum']      # every Gen module the model, lemmas and driver import (transitively)
@@ -45,26 +44,14 @@ RULE = ('cases: pupils 1..6 x 1..6 (even/odd/non-square, off-centre support, 1..
 TRUSTED = ['np.dot(E1.dot(f), E2), np.exp, np.outer, np.fix, np.broadcast_to as modelled in Model/Fourier.lean and Model/Propagate.lean',
            'lentil.fourier.dft2 = Model dft2 (checked by C01); lentil.field.insert = Model insertArr (checked by C06)']
 UNPROVEN = ['np.fix on IEEE doubles = TruncLike.trunc: class operation, tied differentially (splits of every case + adversarial probe)',
-            'np.broadcast_to(x, (2,)) for an int or a pair: NumPy contract (ShapeArg.bcast2)',
-            'mask differing from the output array in exactly one dimension: accepted by the code, window centred on the mask (open known finding KF-C02-mask-shape-guard)']
+            'np.broadcast_to(x, (2,)) for an int or a pair: NumPy contract (ShapeArg.bcast2)']
 ASSUMPTIONS = ['shape >= 1, prop_shape >= 1; the wavefront has passed through a plane (wavefront.shape is a pair)',
+               'a mask whose shape differs from shape*oversample in one or both dimensions must be refused with ValueError (oracle; corpus case mask-8x10-for-8x8-output)',
                'a mask without support must be refused: ValueError or NumPy\'s IndexError are both accepted as the refusal',
                'generated tilt shifts keep a fractional part in [0.05,0.95] so that np.fix is insensitive to rounding (the truncation probe covers the rest)']
 
 WL, Z = 5e-7, 8.0
 MASK_MSG = 'mask shape mismatch not refused'
-
-def matches_finding(kf, c, msg):
-    if kf.get('id') != 'KF-C02-mask-shape-guard': return False
-    st = c['stages'][-1]
-    # input class of the finding: the mask differs from the output array in exactly one dimension
-    return bool(isinstance(msg, str) and msg.startswith(MASK_MSG) and (st['mask'] or {}).get('bad') in ('rows', 'cols'))
-
-def replay_finding(kf):
-    if kf.get('id') != 'KF-C02-mask-shape-guard': return False
-    c = kf['witness']
-    msg = oracle(c, impl(c))
-    return bool(msg and matches_finding(kf, c, msg))
 
 def _dy(rng, lo, hi, q=8):
     return float(rng.integers(int(lo * q), int(hi * q) + 1)) / q
